@@ -27,14 +27,21 @@ CLAUSES = [
       "SCoda.C02b.prefixes_used", "SCoda.C02b.parse_render_statement_false", "SCoda.C02b.vocab_tokens_parse_statement_false"]),
     ("glue: the merge/pairing code in front of the tokeniser core hands it events whose channels are track indices (hypothesis ChannelsOk)",
      ["SCoda.Glue.extract_channels"]),
-    ("TIE BY TRANSLATION, tokeniser: MultiTrackLargeVocabularyNotelikeTokeniser is re-translated statement by statement on every run (Gen/TokFns.lean, tools/py2lean_tok.py: __init__, _construct_dictionary, tokenise with its closure _apply_rest as a fuelled loop, detokenise, get_info, encode, decode; f-strings as string concatenation, dicts as association lists, floats as exact rationals) and each translation is proved equal to the hand model the theorems above are about, on rendered token strings: _construct_dictionary never raises and stores exactly the model's vocabulary sequence (rendered) after the four literal ids, dictionary_size = the model's dictionarySize, __init__ fills defaults / sorts / builds the vocabulary as the model configuration says; encode / decode = the model's id maps",
+    ("TIE BY TRANSLATION, tokeniser: MultiTrackLargeVocabularyNotelikeTokeniser is re-translated statement by statement on every run (Gen/TokFns.lean, tools/py2lean_tok.py: __init__, _construct_dictionary, tokenise with its closure _apply_rest as a fuelled loop, detokenise, get_info, encode, decode; f-strings as string concatenation, dicts as association lists, floats as exact rationals) and each translation is proved equal to the hand model the theorems above are about, on rendered token strings: _construct_dictionary never raises and stores exactly the model's vocabulary sequence (rendered) after the four literal ids, dictionary_size = the model's dictionarySize, __init__ fills defaults / sorts and de-duplicates (sorted(set(...)), repair of D31) / builds the vocabulary as the model configuration says; encode / decode = the model's id maps",
      ["SCoda.TokTie.constructDictionary_all", "SCoda.TokTie.constructDictionary_eq", "SCoda.TokTie.constructDictionary_dictionary", "SCoda.TokTie.dictionarySize_eq", "SCoda.TokTie.tokInit_eq'", "SCoda.TokTie.encode_eq", "SCoda.TokTie.decode_eq", "SCoda.TokTie.tokenise_eq", "SCoda.TokTie.detokenise_eq"]),
+    ("EVERY CONSTRUCTIBLE TOKENISER (repair of finding D31, tie by translation): __init__ stores sorted(set(step_sizes)) / sorted(set(note_values)) "
+     "(translated statement by statement: set(l) = the distinct elements, sorted(s) = ascending; the result does not depend on the order of a set); for every "
+     "argument list - repeated entries included, unsorted, or None = the defaults - the object the translated __init__ returns has strictly ascending step sizes and "
+     "note values with exactly the entries of the list passed, hence duplicate free: the hypotheses steps_nodup / values_nodup of CfgWF (under which the bijection "
+     "theorems above are proved) hold for every tokeniser __init__ can build, they are no longer a condition on the caller's arguments; what is left of CfgWF as a "
+     "condition is that get_velocity_bins returned distinct bins (known finding D16b); a caller who passes duplicate-free lists gets what .sort() stored before",
+     ["SCoda.TokTie.tokInit_nodup", "SCoda.TokTie.tokInit_sorted", "SCoda.TokTie.tokInit_cfgWF", "SCoda.TokTie.tokInit_cfg", "SCoda.TokTie.initObj_of_nodup"]),
     ('render is injective on ALL tokens, signed fields included, so the rendered vocabulary has no duplicate key for every configuration with duplicate-free step sizes, note values and bins (negative arguments included; closes the last open statement of audit A9); _construct_dictionary is described by the construction sequence exactly on objects with _dictionary_size = 0 — a second call keeps ids 0..3 and renumbers the rest from the old size + 4 (replayed: the method is private and only called from __init__); generated decode / encode equal the model for EVERY configuration (duplicate keys: overwritten ids are missing from the inverse dictionary)',
      ["SCoda.Defs.render_injective_all", "SCoda.Defs.render_vocab_nodup_general", "SCoda.Defs.render_vocab_nodup_iff", "SCoda.Defs.constructDictionary_anyObject_iff", "SCoda.Defs.constructDictionary_anyObject_statement_false", "SCoda.Defs.constructDictionary_second_call", "SCoda.Defs.decode_general", "SCoda.Defs.decode_eq_all", "SCoda.Defs.decode_one", "SCoda.Defs.encode_eq_all"]),
 ]
 RULE = ("configurations: 16 flag combinations x velocity_bins x tracks 1..3 x pitch ranges x value sets (quick: 24 sampled, "
         "thorough: the lattice) + configurations off the default step list (quick 16, thorough 120: custom and unsorted step lists, a step above "
-        "ppqn, three-digit steps, single-step lists, custom value sets, ppqn 12/48/96/6, and lists with a repeated entry = known finding D31); "
+        "ppqn, three-digit steps, single-step lists, custom value sets, ppqn 12/48/96/6, and lists with a repeated entry = finding D31, repaired: regression inputs); "
         "closure is judged on pieces drawn on each configuration's own grid plus one piece per configuration that makes tokenise use every "
         "step size that fits a bar; the whole Python dictionary is compared with the model's rendered vocabulary entry by entry; "
         "non-trivial = every configuration (distinct)")
@@ -152,7 +159,9 @@ def setup(ctx):
     ctx.kf_predicates["D31"] = kf_d31
 
 
-# finding D31 (audit round 3, O4): a repeated entry in step_sizes
+# finding D31 (audit round 3, O4): a repeated entry in step_sizes.  Repaired by fix_D31.diff (__init__ stores sorted(set(...))); the two examples stay
+# in `generate` as regression inputs: with the repair they pass, without it they fail exactly as kf_d31 describes (a finding whose status is "fixed" is
+# not matched by its predicate any more, so its return is reported as a violation)
 D31_EXAMPLE = {"cfg": dict(num_tracks=1, pitch_range=(60, 62), step_sizes=[4, 4, 8])}
 D31_EXAMPLE_VALUES = {"cfg": dict(num_tracks=1, pitch_range=(60, 62), note_values=[12, 12, 24])}
 # audit round 3, O3: every step size the rests are cut into must be a vocabulary token, also a step above ppqn
